@@ -123,10 +123,9 @@ def run_one(member, sizes, inputs, f_eval, f_asm, f_cmp, props, cap):
         if view is not None and not view.ok and any("live array" in p or "aliases" in p or "entries" in p or "uninitialised" in p for p in view.problems):
             fails.append(dict(prop="C05", what="arrays handed back do not cover the structure: " + "; ".join(view.problems[:3])))
     if safety or view is None:
-        if "C01" in props:
-            fails.append(dict(prop="C01", what="the kernel does not return a result: " + "; ".join(safety)))
-        elif "C05" not in props:
-            fails.append(dict(prop="EXEC", what="; ".join(safety)))
+        for p in sorted(props - {"C05"}):
+            # a kernel that fails on the abstract machine returns no tensor at all: no kernel-level property holds on this input
+            fails.append(dict(prop=p, what="the kernel does not complete on the reference machine, so no result satisfying the property is returned: " + "; ".join(safety)))
         return fails
     if "C02" in props and not view.ok:
         fails.append(dict(prop="C02", what="; ".join(view.problems[:3])))
@@ -145,10 +144,8 @@ def run_one(member, sizes, inputs, f_eval, f_asm, f_cmp, props, cap):
                 if view.lengths.get(f"{l}.crd") != n:
                     fails.append(dict(prop="C02", what=f"level {l}: crd block has {view.lengths.get(f'{l}.crd')} entries, structure stores {n}"))
     if not view.ok:
-        if "C01" in props:
-            fails.append(dict(prop="C01", what="the returned tensor cannot be decoded, so its value is not the assignment's: " + "; ".join(view.problems[:3])))
-        elif "C02" not in props:
-            fails.append(dict(prop="EXEC", what="; ".join(view.problems[:3])))
+        for p in sorted(props - {"C02", "C05"}):
+            fails.append(dict(prop=p, what="the returned tensor is malformed and cannot be decoded: " + "; ".join(view.problems[:3])))
         return fails
     doks = {n: d.dok() for n, d in inputs.items()}
     if "C01" in props:
